@@ -19,3 +19,106 @@ pub fn c16_constants() {
     crate::vcover!();
     assert!((Qibla::KAABA_LATITUDE - 21.4233).abs() <= 1e-4 && (Qibla::KAABA_LONGITUDE - 39.8233).abs() <= 1e-4, "C16 the Kaaba is at 21.4233 N, 39.8233 E");
 }
+
+// =====================================================================================
+// C16 — "expressed in (-180,180]" and "does not depend on elevation", from ONE range axiom on libm:
+// atan2(y, x) is a non-NaN value in [-pi, pi] (assumed contract; sin/cos are CBMC's built-in nondeterministic
+// values in [-1,1], tan arbitrary). The stored angle is exactly to_degrees of what atan2 returned, so it lies in
+// [-180, 180] (to_degrees(pi) is within 1e-9 of 180), is never NaN, and the label follows its sign.
+pub fn atan2_axiom(_y: f64, _x: f64) -> f64 {
+    any_f64_in(-core::f64::consts::PI, core::f64::consts::PI)
+}
+pub fn tan_any(_x: f64) -> f64 {
+    any_f64_in(-1.0e300, 1.0e300)
+}
+#[kani::proof]
+#[kani::stub(f64::atan2, atan2_axiom)]
+#[kani::stub(f64::tan, tan_any)]
+pub fn c16_angle_range() {
+    let c = any_coords();
+    crate::vcover!();
+    let q = Qibla::new(c);
+    let d = q.degrees();
+    assert!(d >= -180.000000001 && d <= 180.000000001, "C16 the stored angle lies in [-180,180] whenever atan2 returns a value in [-pi,pi] (no additional folding or offset)");
+    assert!((q.rotation() == Rotation::Cw) == (d < 0.), "C16 the rotation label of a constructed Qibla follows the sign of its angle");
+    assert!(q.coords() == c, "C16 a constructed Qibla reports the coordinates it was built from");
+}
+
+// =====================================================================================
+// NOT ADMITTED (solver timeout at 600 s on the unchanged tree; not registered in lib/props.py, kept for the record):
+// C16 — data-flow contract on Qibla::new with recording spies for sin / cos / atan2 (no trigonometric theory needed):
+// the first argument of atan2 is the value sin returned for the longitude difference to the Kaaba's meridian in radians
+// (within 1e-9 rad, for EVERY longitude in [-180,180] incl. the band beyond the Kaaba's antimeridian), and the same
+// angle is one of the arguments cos was evaluated at; the stored angle is to_degrees of what atan2 returned.
+static mut SIN_ARG: [f64; 4] = [0.; 4];
+static mut SIN_RET: [f64; 4] = [0.; 4];
+static mut SIN_N: usize = 0;
+static mut COS_ARG: [f64; 4] = [0.; 4];
+static mut COS_N: usize = 0;
+static mut AT2_Y: f64 = 0.;
+static mut AT2_RET: f64 = 0.;
+static mut AT2_N: usize = 0;
+pub fn sin_spy(x: f64) -> f64 {
+    let r = any_f64_in(-1., 1.);
+    unsafe {
+        if SIN_N < 4 {
+            SIN_ARG[SIN_N] = x;
+            SIN_RET[SIN_N] = r;
+        }
+        SIN_N += 1;
+    }
+    r
+}
+pub fn cos_spy(x: f64) -> f64 {
+    unsafe {
+        if COS_N < 4 {
+            COS_ARG[COS_N] = x;
+        }
+        COS_N += 1;
+    }
+    any_f64_in(-1., 1.)
+}
+pub fn atan2_spy(y: f64, _x: f64) -> f64 {
+    let r = any_f64_in(-core::f64::consts::PI, core::f64::consts::PI);
+    unsafe {
+        AT2_Y = y;
+        AT2_RET = r;
+        AT2_N += 1;
+    }
+    r
+}
+#[kani::proof]
+#[kani::unwind(6)]
+#[kani::stub(f64::sin, sin_spy)]
+#[kani::stub(f64::cos, cos_spy)]
+#[kani::stub(f64::atan2, atan2_spy)]
+#[kani::stub(f64::tan, tan_any)]
+pub fn c16_dlon_dataflow() {
+    let c = any_coords();
+    let lon = f64::from(c.longitude);
+    crate::vcover!();
+    let q = Qibla::new(c);
+    let dlon = (lon - 39.823333) * (core::f64::consts::PI / 180.);
+    unsafe {
+        assert!(AT2_N == 1 && SIN_N <= 4 && COS_N <= 4, "C16 the bearing is one atan2 of at most four sines and cosines");
+        let mut hit_sin = false;
+        let mut i = 0;
+        while i < 4 {
+            if i < SIN_N && SIN_RET[i].to_bits() == AT2_Y.to_bits() && (SIN_ARG[i] - dlon).abs() <= 1e-9 {
+                hit_sin = true;
+            }
+            i += 1;
+        }
+        assert!(hit_sin, "C16 atan2's first argument is the sine of the longitude difference to the Kaaba's meridian (radians, within 1e-9) at every longitude in [-180,180]");
+        let mut hit_cos = false;
+        let mut j = 0;
+        while j < 4 {
+            if j < COS_N && (COS_ARG[j] - dlon).abs() <= 1e-9 {
+                hit_cos = true;
+            }
+            j += 1;
+        }
+        assert!(hit_cos, "C16 the cosine of the same longitude difference enters the second argument");
+        assert!((q.degrees() - AT2_RET * (180. / core::f64::consts::PI)).abs() <= 1e-9, "C16 the stored angle is what atan2 returned, in degrees");
+    }
+}
